@@ -621,6 +621,12 @@ class C02(F.Check):
             ("fixed", one(one(scale(L("Grams"), Fraction(5, 3)), 1), 5), L("Grams")),
             ("fixed", one(prefix("Kilo", L("Meters")), 3), L("Meters")),
             ("fixed", scale(one(scale(L("Seconds"), 60), 0), 60), L("Hours")),
+            # a composite scale factor written in one step vs through its prime factors (pseudoprimes: a primality slip would make
+            # mag<N>() a different - non-canonical - type with the same value)
+            ("fixed", scale(L("Meters"), 1373653), scale(scale(L("Meters"), 829), 1657)),
+            ("fixed", scale(L("Seconds"), 2047), scale(scale(L("Seconds"), 23), 89)),
+            ("fixed", scale(L("Grams"), Fraction(1, 3215031751)), scale(scale(scale(L("Grams"), Fraction(1, 151)), Fraction(1, 751)), Fraction(1, 28351))),
+            ("fixed", scale(L("Feet"), Fraction(561, 25326001)), scale(scale(L("Feet"), Fraction(3 * 11, 2251)), Fraction(17, 11251))),
         ]
         pairs = list(fixed)
         stats = {"excluded_identical_units": 0, "ratio_out_of_double_range": 0, "no_partner": 0}
